@@ -3,6 +3,7 @@
 Forward analysis with abstract inlining of in-crate callees, trace partitioning on
 enum variants / constant flags, LIN constraint stores, provenance-carrying values.
 """
+import os
 import sys
 from lin import Lin, ATOMS, Store, le, lt
 from values import (Loc, World, Obj, TY, reg_ty, UNIT, MOVED, TRUE, FALSE, vint, vbool,
@@ -885,7 +886,7 @@ class Interp:
             if self.in_range(w, v[1], lo, hi):
                 return v
             a = ATOMS.fresh('trunc', lo, hi, defn=('trunc', v[1], to['bits']))
-            self.rec(frame, site[1], 'event', site, ('lossy_cast', v[1], to['s'], frm['s']))
+            self.rec(frame, site[1], 'event', site, ('lossy_cast', v[1], to['s'], frm['s'], w.fork()))
             w.event(('lossy_cast', site, v[1], to['s']))
             return ('int', Lin.atom(a))
         if kind.startswith('PointerCoercion'):
@@ -980,7 +981,7 @@ class Interp:
         data = {'okind': okind, 'ok': ok, 'desc': desc}
         if not ok:
             failing = [c for c in cons if not w.store.entails(c)]
-            if frame.body.key in self.cfg.get('decline_loop_obligations_in', ()) and \
+            if (frame.body.key in self.cfg.get('decline_loop_obligations_in', ()) or getattr(self, 'root_key', None) in self.cfg.get('decline_loop_obligations_in', ())) and \
                     all(any(a in self.loop_atoms for a in c.atoms()) for c in failing):
                 data['declined'] = 'depends on a loop-carried quantity (relational loop invariant out of reach)'
             data['needs'] = [f"{c.pretty()} <= 0" for c in failing]
@@ -1808,6 +1809,23 @@ class Interp:
                         buckets.append(uniq)
                     jn = 0
                     total = sum(len(b_) for b_ in buckets)
+                    if self.cfg.get('merge') == 'global':
+                        # merge, among all worlds of this key, the two whose merge loses least (whatever edge they came over)
+                        flat = [w_ for b_ in buckets for w_ in b_]
+                        while len(flat) > self.kslots:
+                            bi, bj = len(flat) - 2, len(flat) - 1
+                            if len(flat) <= 48:
+                                best = None
+                                for i_ in range(len(flat)):
+                                    for j_ in range(i_ + 1, len(flat)):
+                                        c_ = self.merge_cost(flat[i_], flat[j_])
+                                        if best is None or c_ < best:
+                                            best, bi, bj = c_, i_, j_
+                            x = flat.pop(bj)
+                            flat[bi], _ = self.join(flat[bi], x, (frame.fid, bb, jn), relational=self.cfg.get('relational_all', False))
+                            jn += 1
+                        buckets = [flat]
+                        total = len(flat)
                     while total > self.kslots:
                         big = max(range(len(buckets)), key=lambda i: len(buckets[i]))
                         if len(buckets[big]) >= 2:
@@ -2326,6 +2344,7 @@ class Interp:
         """analyse `body` as an entry point with unconstrained parameters.
         returns (list of (world, retval), frame-less info)"""
         w = World()
+        self.root_key = body.key      # policies named after an entry point also cover the helpers inlined under it
         args = []
         for i in range(1, body.arg_count + 1):
             ty = body.local_ty(i)
